@@ -12,6 +12,12 @@ package dawn
 //                decide it, the true record (byte-identical stamp, same dependency stamps, rerun clear)
 //     died       the subprocess died (panic escaped, fatal error)
 //     hang       the subprocess did not finish within the timeout
+// Corruptions of the stamp's base64 text by a character outside the alphabet make the decoder's SOURCE fail with an error
+// that is not io.EOF, after it has delivered the bytes before the damaged quantum; the stamps of the project below hold
+// every operand-bearing opcode (INT text, 1/2/4-byte ints, floats, short and long strings, bytes), so that the failure
+// arrives in the middle of every kind of operand.  Such a stamp is first decoded in process exactly as function.load does,
+// from a guarded reader (kind stamp-b64-inprocess: error | hang | panic | nilnil | value-from-failed-source), then (kind
+// stamp-b64) loaded and built in the subprocess.
 // Output ($VERIF_OUT): record \t <file> \t <corruption kind> \t <detail> \t <class>
 //                      ORACLE \t record-<class> \t <file> \t <kind> \t <detail> \t <hex of the corrupted record>
 
@@ -23,6 +29,7 @@ import (
 	"encoding/hex"
 	"encoding/json"
 	"fmt"
+	"io"
 	"math/rand"
 	"os"
 	"os/exec"
@@ -30,6 +37,7 @@ import (
 	"strconv"
 	"strings"
 	"sync"
+	"sync/atomic"
 	"testing"
 	"time"
 
@@ -53,12 +61,32 @@ def top():
     print("run top")
 `
 
+// c15RichBuildFile: the same project with an environment whose stamp holds every operand-bearing opcode.
+var c15RichBuildFile = strings.Replace(c15BuildFile, `K = {"x": [1, 2, 3], "y": "why"}`,
+	`K = {"x": [1, 2, 3], "y": "why", "big": 1099511627776, "neg": -9223372036854775809, "huge": 1 << 80, "f": 1.5,
+     "bytes": b"\x00\xff raw", "long": "0123456789abcdef" * 20, "ints": (255, 256, 65535, 65536, -1, 2147483647, 2147483648),
+     "flags": (True, False, None), 300: 70000}`, 1)
+
 // TestVerifC15RecordChild is the subprocess body: load and build, print what happened.
 func TestVerifC15RecordChild(t *testing.T) {
 	dir := os.Getenv("VERIF_C15_CHILD_DIR")
 	if dir == "" {
 		t.Skip("not a child")
 	}
+	// a decoder that hangs while accumulating input must die early, not fill the machine's memory
+	go func() {
+		for {
+			time.Sleep(100 * time.Millisecond)
+			var size, resident int64
+			if b, err := os.ReadFile("/proc/self/statm"); err == nil {
+				fmt.Sscan(string(b), &size, &resident)
+			}
+			if rss := resident * int64(os.Getpagesize()); rss > 1<<30 {
+				fmt.Printf("C15CHILD\tMEMORY\t%d bytes resident: killed\n", rss)
+				os.Exit(3)
+			}
+		}
+	}()
 	ev := &testEvents{}
 	report := func(status string) {
 		for _, e := range ev.events {
@@ -153,10 +181,78 @@ func c15sameRecord(trueRec, gotRec []byte) (same bool, why string) {
 	return true, ""
 }
 
-func c15corruptions(rec []byte, rng *rand.Rand, thorough bool) []c15corruption {
+// ---- the stamp's source: base64 text with a damaged character
+
+type c15hang struct{}
+
+// c15guard observes what the decoder does with its source: the bytes delivered before the first error, the number of
+// reads answered with an error; a decoder that goes on reading from a failed source more than c15hangLimit times is hung
+// (the guard breaks its loop by panicking with a value that is not an error, which Decode's recover swallows).
+type c15guard struct {
+	r         io.Reader
+	delivered int
+	nerr      int
+	hung      bool
+}
+
+const c15hangLimit = 1 << 16
+
+func (g *c15guard) Read(p []byte) (int, error) {
+	n, err := g.r.Read(p)
+	if g.nerr == 0 {
+		g.delivered += n
+	}
+	if err != nil {
+		g.nerr++
+		if g.nerr > c15hangLimit {
+			g.hung = true
+			panic(c15hang{})
+		}
+	}
+	return n, err
+}
+
+// c15decodeDamagedStamp decodes a stamp as function.load does (base64 stream decoder, envUnpickler), through the guard.
+func c15decodeDamagedStamp(stamp string) (class string, g *c15guard) {
+	g = &c15guard{r: base64.NewDecoder(base64.StdEncoding, strings.NewReader(stamp))}
+	defer func() {
+		if r := recover(); r != nil {
+			class = "panic"
+			if _, ok := r.(c15hang); ok {
+				class = "hang"
+			}
+		}
+	}()
+	v, err := pickle.NewDecoder(g, pickle.UnpicklerFunc(envUnpickler)).Decode()
+	switch {
+	case g.hung:
+		return "hang", g
+	case err != nil:
+		return "error", g
+	case v == nil:
+		return "nilnil", g
+	case g.nerr > 0:
+		return "value-from-failed-source", g
+	}
+	return "value", g
+}
+
+// characters outside the standard alphabet, and '=' where no padding belongs
+var c15badChars = []byte{'*', 0, '-', '_', ' ', '=', 0xff, '~'}
+
+func c15damage(stamp string, i int, c byte) string {
+	b := []byte(stamp)
+	b[i] = c
+	return string(b)
+}
+
+// family "classic": everything but the damaged base64 characters; "b64": only those.
+func c15corruptions(rec []byte, rng *rand.Rand, thorough bool, family string) []c15corruption {
 	var cs []c15corruption
 	add := func(kind, detail string, data []byte) {
-		cs = append(cs, c15corruption{kind, detail, append([]byte(nil), data...)})
+		if (kind == "stamp-b64") == (family == "b64") {
+			cs = append(cs, c15corruption{kind, detail, append([]byte(nil), data...)})
+		}
 	}
 	// truncation at every offset (quick: every offset below 48, then every third)
 	for i := 0; i < len(rec); i++ {
@@ -280,6 +376,23 @@ func c15corruptions(rec []byte, rng *rand.Rand, thorough bool) []c15corruption {
 		s := s
 		add("stamp", name, with(func(i *targetInfo) { i.Data = s }))
 	}
+	// one damaged character in the stamp's base64 text: every quantum (thorough: every character, two damages each)
+	for i := 0; i < len(info.Data); i++ {
+		if !thorough && i%4 != (i/4)%4 {
+			continue
+		}
+		for rep := 0; rep < 2; rep++ {
+			if rep == 1 && !thorough {
+				break
+			}
+			c := c15badChars[(i/4+i+3*rep)%len(c15badChars)]
+			if c == info.Data[i] {
+				continue
+			}
+			d := c15damage(info.Data, i, c)
+			add("stamp-b64", fmt.Sprintf("%d:%02x", i, c), with(func(t *targetInfo) { t.Data = d }))
+		}
+	}
 	// outside the property's hypothesis (declared length far beyond the input size): observed, not judged
 	add("stamp-oversize", "2GiB-declared-length", with(func(i *targetInfo) {
 		i.Data = base64.StdEncoding.EncodeToString([]byte("X\xff\xff\xff\x7fabc."))
@@ -300,10 +413,10 @@ func TestVerifC15Record(t *testing.T) {
 		t.Fatal(err)
 	}
 	defer os.RemoveAll(base)
-	mkproj := func(dir string) {
+	mkproj := func(dir, buildFile string) {
 		os.MkdirAll(dir, 0o755)
 		os.WriteFile(filepath.Join(dir, "dawn.toml"), nil, 0o644)
-		os.WriteFile(filepath.Join(dir, "BUILD.dawn"), []byte(c15BuildFile), 0o644)
+		os.WriteFile(filepath.Join(dir, "BUILD.dawn"), []byte(buildFile), 0o644)
 	}
 
 	runChild := func(dir string) (status string, events map[string][]string) {
@@ -322,6 +435,8 @@ func TestVerifC15Record(t *testing.T) {
 			if len(f) == 3 && f[0] == "C15CHILD" {
 				if f[1] == "DONE" {
 					status = f[2]
+				} else if f[1] == "MEMORY" {
+					events["!memory"] = []string{f[2]}
 				} else {
 					events[f[2]] = append(events[f[2]], f[1])
 				}
@@ -330,35 +445,42 @@ func TestVerifC15Record(t *testing.T) {
 		return
 	}
 
-	// the pristine build
-	p0 := filepath.Join(base, "p0")
-	mkproj(p0)
-	if st, _ := runChild(p0); st != "ok" {
-		t.Fatalf("initial build: %s", st)
+	// the pristine builds: the plain project (every family but the damaged base64 characters) and the rich one
+	projects := []struct{ name, prefix, buildFile, family, pristine string }{
+		{"plain", "", c15BuildFile, "classic", ""},
+		{"rich", "rich/", c15RichBuildFile, "b64", ""},
 	}
-	st, evs := runChild(p0)
-	if st != "ok" || fmt.Sprint(evs["//:b"]) != "[TargetUpToDate]" || fmt.Sprint(evs["//:top"]) != "[TargetUpToDate]" {
-		t.Fatalf("second build not up to date: %s %v", st, evs)
-	}
-	pristine := filepath.Join(base, "pristine")
-	if err := c15copyTree(filepath.Join(p0, ".dawn"), pristine); err != nil {
-		t.Fatal(err)
-	}
-
 	type job struct {
+		proj      int
 		file, lbl string
 		c         c15corruption
 		trueRec   []byte
 	}
 	var jobs []job
-	for _, tg := range []struct{ file, lbl string }{{"%2Fb", "//:b"}, {"%2Ftop", "//:top"}, {"%2Fdefault", "//:default"}} {
-		rec, err := os.ReadFile(filepath.Join(pristine, "build", "targets", tg.file))
-		if err != nil {
+	for pi := range projects {
+		pr := &projects[pi]
+		p0 := filepath.Join(base, "p0-"+pr.name)
+		mkproj(p0, pr.buildFile)
+		if st, _ := runChild(p0); st != "ok" {
+			t.Fatalf("initial build (%s): %s", pr.name, st)
+		}
+		st, evs := runChild(p0)
+		if st != "ok" || fmt.Sprint(evs["//:b"]) != "[TargetUpToDate]" || fmt.Sprint(evs["//:top"]) != "[TargetUpToDate]" {
+			t.Fatalf("second build (%s) not up to date: %s %v", pr.name, st, evs)
+		}
+		pr.pristine = filepath.Join(base, "pristine-"+pr.name)
+		if err := c15copyTree(filepath.Join(p0, ".dawn"), pr.pristine); err != nil {
 			t.Fatal(err)
 		}
-		rng := rand.New(rand.NewSource(seed + int64(len(jobs))))
-		for _, c := range c15corruptions(rec, rng, thorough) {
-			jobs = append(jobs, job{tg.file, tg.lbl, c, rec})
+		for _, tg := range []struct{ file, lbl string }{{"%2Fb", "//:b"}, {"%2Ftop", "//:top"}, {"%2Fdefault", "//:default"}} {
+			rec, err := os.ReadFile(filepath.Join(pr.pristine, "build", "targets", tg.file))
+			if err != nil {
+				t.Fatal(err)
+			}
+			rng := rand.New(rand.NewSource(seed + int64(len(jobs))))
+			for _, c := range c15corruptions(rec, rng, thorough, pr.family) {
+				jobs = append(jobs, job{pi, tg.file, tg.lbl, c, rec})
+			}
 		}
 	}
 
@@ -371,18 +493,75 @@ func TestVerifC15Record(t *testing.T) {
 	defer w.Flush()
 	var mu sync.Mutex
 
+	tSweep := time.Now()
+	// in process: every character of every stamp damaged, decoded as function.load decodes it, from the guarded source
+	for _, tg := range []struct {
+		proj      int
+		file, lbl string
+	}{{0, "%2Fb", "//:b"}, {0, "%2Ftop", "//:top"}, {1, "%2Fb", "//:b"}, {1, "%2Ftop", "//:top"}} {
+		rec, err := os.ReadFile(filepath.Join(projects[tg.proj].pristine, "build", "targets", tg.file))
+		if err != nil {
+			t.Fatal(err)
+		}
+		var info targetInfo
+		if err := json.Unmarshal(rec, &info); err != nil {
+			t.Fatal(err)
+		}
+		if class, _ := c15decodeDamagedStamp(info.Data); class != "value" {
+			t.Fatalf("the undamaged stamp of %s decodes to %s", tg.lbl, class)
+		}
+		for i := 0; i < len(info.Data); i++ {
+			for rep := 0; rep < len(c15badChars); rep++ {
+				if !thorough && rep >= 2 {
+					break
+				}
+				c := c15badChars[(i+rep*3)%len(c15badChars)]
+				if c == info.Data[i] {
+					continue
+				}
+				damaged := c15damage(info.Data, i, c)
+				class, g := c15decodeDamagedStamp(damaged)
+				detail := fmt.Sprintf("%d:%02x", i, c)
+				fmt.Fprintf(w, "record\t%s\tstamp-b64-inprocess\t%s\t%s\n", projects[tg.proj].prefix+tg.file, detail, class)
+				if class != "error" && class != "value" {
+					bad := info
+					bad.Data = damaged
+					b, _ := json.Marshal(bad)
+					fmt.Fprintf(w, "ORACLE\trecord-%s\t%s\tstamp-b64-inprocess\t%s decoding the stamp as function.load does: %d bytes delivered, then %d reads answered with an error\t%s\n",
+						class, projects[tg.proj].prefix+tg.file, detail, g.delivered, g.nerr, hex.EncodeToString(append(b, '\n')))
+				}
+			}
+		}
+	}
+	w.Flush()
+	t.Logf("in-process stamp sweep: %v", time.Since(tSweep))
+
+	// after a few dead or hung subprocesses the remaining corruptions are not run (each costs up to the timeout)
+	var failures int32
+	const maxFailures = 4
+
 	const workers = 8
 	ch := make(chan job)
 	var wg sync.WaitGroup
 	for k := 0; k < workers; k++ {
-		dir := filepath.Join(base, fmt.Sprintf("w%d", k))
-		mkproj(dir)
+		var dirs []string
+		for _, pr := range projects {
+			dirs = append(dirs, filepath.Join(base, fmt.Sprintf("w%d-%s", k, pr.name)))
+			mkproj(dirs[len(dirs)-1], pr.buildFile)
+		}
 		wg.Add(1)
 		go func() {
 			defer wg.Done()
 			for j := range ch {
+				if atomic.LoadInt32(&failures) >= maxFailures {
+					mu.Lock()
+					fmt.Fprintf(w, "record\t%s\t%s\t%s\tnot-run-after-%d-dead-or-hung\n", projects[j.proj].prefix+j.file, j.c.kind, j.c.detail, maxFailures)
+					mu.Unlock()
+					continue
+				}
+				dir, prefix := dirs[j.proj], projects[j.proj].prefix
 				os.RemoveAll(filepath.Join(dir, ".dawn"))
-				if err := c15copyTree(pristine, filepath.Join(dir, ".dawn")); err != nil {
+				if err := c15copyTree(projects[j.proj].pristine, filepath.Join(dir, ".dawn")); err != nil {
 					panic(err)
 				}
 				if err := os.WriteFile(filepath.Join(dir, ".dawn", "build", "targets", j.file), j.c.data, 0o644); err != nil {
@@ -393,6 +572,9 @@ func TestVerifC15Record(t *testing.T) {
 				switch status {
 				case "died", "hang":
 					class = status
+					if j.c.kind != "stamp-oversize" {
+						atomic.AddInt32(&failures, 1)
+					}
 				case "loaderr", "runerr":
 					class = "error"
 				default:
@@ -417,6 +599,9 @@ func TestVerifC15Record(t *testing.T) {
 					}
 				}
 				why := ""
+				if m := events["!memory"]; class == "died" && len(m) > 0 {
+					why = "(runaway allocation: " + m[0] + ")"
+				}
 				if class == "uptodate" {
 					same, w := c15sameRecord(j.trueRec, j.c.data)
 					if same {
@@ -426,10 +611,10 @@ func TestVerifC15Record(t *testing.T) {
 					}
 				}
 				mu.Lock()
-				fmt.Fprintf(w, "record\t%s\t%s\t%s\t%s\n", j.file, j.c.kind, j.c.detail, class)
+				fmt.Fprintf(w, "record\t%s\t%s\t%s\t%s\n", prefix+j.file, j.c.kind, j.c.detail, class)
 				if (class == "died" || class == "hang" || class == "uptodate-different-record" || class == "unobserved") &&
 					j.c.kind != "stamp-oversize" {
-					fmt.Fprintf(w, "ORACLE\trecord-%s\t%s\t%s\t%s %s\t%s\n", class, j.file, j.c.kind, j.c.detail, why,
+					fmt.Fprintf(w, "ORACLE\trecord-%s\t%s\t%s\t%s %s\t%s\n", class, prefix+j.file, j.c.kind, j.c.detail, why,
 						hex.EncodeToString(j.c.data))
 				}
 				mu.Unlock()
